@@ -34,6 +34,9 @@ EXTENDS Naturals, Sequences, FiniteSets, TLC, Json
 CONSTANTS Alphabet,   \* set of mutator command texts used by the generator
           Kinds,      \* subset of {"Paren","CmdSubst","Pipe","Async"}
           MaxPre, MaxChild, MaxPost, MaxTotal,
+          MinPre,     \* the fork may happen only after at least this many prelude mutators
+          MinTotal,   \* a scenario may end early only with at least this many mutators
+                      \* (0 for exhaustive enumeration; > 0 to make random walks long)
           Leaky       \* TRUE: adds a wrong action sharing state by reference (negative test)
 
 -----------------------------------------------------------------------------
@@ -114,7 +117,7 @@ Sem(c) ==
     [] c = "trap 'probe e' EXIT" -> [op |-> "trap",    c |-> "EXIT", a |-> "cmd:probe e"]
     [] c = "trap - EXIT"         -> [op |-> "trap",    c |-> "EXIT", a |-> "-"]
     [] c = "exec 3>>/tmp/f3"     -> [op |-> "open",    fd |-> "3"]
-    [] c = "exec 3</tmp/in"      -> [op |-> "open",    fd |-> "3"]
+    [] c = "exec 4</tmp/in"      -> [op |-> "open",    fd |-> "4"]
     [] c = "exec 3>&-"           -> [op |-> "close",   fd |-> "3"]
     [] c = "exec 4>&3"           -> [op |-> "dup",     fd |-> "4", src |-> "3"]
     [] c = "exec 4>&-"           -> [op |-> "close",   fd |-> "4"]
@@ -129,7 +132,7 @@ AllCmds ==
    "trap 'probe t' INT", "trap '' INT", "trap - INT",
    "trap 'probe u' TERM", "trap '' TERM", "trap - TERM",
    "trap 'probe e' EXIT", "trap - EXIT",
-   "exec 3>>/tmp/f3", "exec 3</tmp/in", "exec 3>&-", "exec 4>&3", "exec 4>&-"}
+   "exec 3>>/tmp/f3", "exec 4</tmp/in", "exec 3>&-", "exec 4>&3", "exec 4>&-"}
 
 (* one representative per mutator class of the property's list *)
 CoreCmds ==
@@ -158,7 +161,7 @@ En(c, S, role) ==
   CASE s.op \in {"assign", "exportv", "unset"} -> S["ro:" \o s.n] # "1"
     [] s.op = "unalias" -> S["alias:" \o s.n] # "-"
     [] s.op = "shift"   -> S["pos:#"] # "0"
-    [] s.op = "dup"     -> S["fd:" \o s.src] # "-"
+    [] s.op = "dup"     -> S["fd:" \o s.src] # "-"     \* descriptor 3 is only ever opened for output
     [] s.op = "trap"    -> ~(role = "async" /\ s.c \in {"INT", "QUIT"})
     [] OTHER            -> TRUE
 
@@ -259,7 +262,7 @@ PreStep ==
   /\ UNCHANGED <<phase, kind, chs, post, P0, C, C0>>
 
 Fork ==
-  /\ phase = "pre"
+  /\ phase = "pre" /\ (Len(pre) >= MinPre \/ Len(pre) = MaxPre)
   /\ \E k \in Kinds :
        /\ kind' = k
        /\ C' = [j \in 1..Len(Roles(k)) |-> ForkImage(P, Roles(k)[j])]
@@ -284,7 +287,10 @@ ParentStep ==
        /\ post' = Append(post, c)
   /\ UNCHANGED <<phase, kind, pre, chs, P0, C, C0>>
 
+Saturated == /\ \A j \in 1..Len(chs) : Len(chs[j]) = MaxChild
+             /\ kind = "Async" => Len(post) = MaxPost
 Finish == /\ phase = "run" /\ phase' = "done"
+          /\ Total >= MinTotal \/ Total = MaxTotal \/ Saturated
           /\ UNCHANGED <<kind, pre, chs, post, P, P0, C, C0>>
 
 (* NEGATIVE TEST ONLY: the child's variables are the parent's (a shared     *)
